@@ -253,6 +253,14 @@ pub struct InnerShared {
     pub next_instance: u64,
     /// scripted readiness answers consumed by successive poll_ready calls: 'r' ready, 'p' pending, 'e' error
     pub ready_script: VecDeque<char>,
+    /// recovery (ms of virtual time): after a call an instance answers `Pending` to poll_ready until that much
+    /// time has passed since the call (a connection being re-established, a saturated limiter); clones start
+    /// recovered. The pending poll registers a timer wake-up. 0 = none.
+    pub recover_ms: u64,
+    /// the recovery concerns the whole service: after a call on ANY instance EVERY instance (fresh clones too — the
+    /// layers leave a fresh clone behind with every call) is pending until `busy_until` (a saturated backend)
+    pub recover_all: bool,
+    pub busy_until: Option<tokio::time::Instant>,
 }
 
 pub struct Inner {
@@ -260,14 +268,20 @@ pub struct Inner {
     pub instance: u64,
     pub ready: bool,
     pub label: &'static str,
+    /// running recovery timer of this instance (see `InnerShared::recover_ms`)
+    pub recovering: Option<Pin<Box<tokio::time::Sleep>>>,
 }
 impl Inner {
     pub fn new() -> Inner {
-        Inner { shared: Arc::new(Mutex::new(InnerShared::default())), instance: 0, ready: false, label: "" }
+        Inner { shared: Arc::new(Mutex::new(InnerShared::default())), instance: 0, ready: false, label: "", recovering: None }
     }
     pub fn strict(script: &str) -> Inner {
-        let sh = InnerShared { strict: true, next_instance: 1, ready_script: script.chars().collect() };
-        Inner { shared: Arc::new(Mutex::new(sh)), instance: 0, ready: false, label: "" }
+        Inner::strict_rec(script, 0, false)
+    }
+    /// strict, with a readiness script and a per-instance recovery time after every call
+    pub fn strict_rec(script: &str, recover_ms: u64, recover_all: bool) -> Inner {
+        let sh = InnerShared { strict: true, next_instance: 1, ready_script: script.chars().collect(), recover_ms, recover_all, busy_until: None };
+        Inner { shared: Arc::new(Mutex::new(sh)), instance: 0, ready: false, label: "", recovering: None }
     }
     pub fn labelled(label: &'static str) -> Inner {
         let mut i = Inner::new();
@@ -280,7 +294,7 @@ impl Clone for Inner {
         let mut sh = self.shared.lock().unwrap();
         let id = sh.next_instance;
         sh.next_instance += 1;
-        Inner { shared: self.shared.clone(), instance: id, ready: false, label: self.label }
+        Inner { shared: self.shared.clone(), instance: id, ready: false, label: self.label, recovering: None }
     }
 }
 
@@ -349,7 +363,23 @@ impl tower::Service<Req> for Inner {
     type Error = IErr;
     type Future = InnerFut;
     fn poll_ready(&mut self, _cx: &mut Context<'_>) -> Poll<Result<(), IErr>> {
+        if let Some(s) = self.recovering.as_mut() {
+            // still recovering from the previous call: pending for a stretch of virtual time (timer wake-up)
+            if s.as_mut().poll(_cx).is_pending() {
+                return Poll::Pending;
+            }
+            self.recovering = None;
+        }
         let mut sh = self.shared.lock().unwrap();
+        if let Some(t) = sh.busy_until {
+            if tokio::time::Instant::now() < t {
+                drop(sh);
+                let mut s = Box::pin(tokio::time::sleep_until(t));
+                let _ = s.as_mut().poll(_cx);
+                self.recovering = Some(s);
+                return Poll::Pending;
+            }
+        }
         if sh.strict {
             match sh.ready_script.pop_front() {
                 Some('p') => {
@@ -370,7 +400,16 @@ impl tower::Service<Req> for Inner {
     fn call(&mut self, req: Req) -> InnerFut {
         let k = next_serial();
         let step = req.plan.lock().unwrap().pop_front().unwrap_or(Step { lat: 0, out: Out::Ok });
-        let strict = self.shared.lock().unwrap().strict;
+        let (strict, rec) = {
+            let mut sh = self.shared.lock().unwrap();
+            if sh.recover_ms > 0 && sh.recover_all {
+                sh.busy_until = Some(tokio::time::Instant::now() + Duration::from_millis(sh.recover_ms));
+            }
+            (sh.strict, if sh.recover_all { 0 } else { sh.recover_ms })
+        };
+        if rec > 0 {
+            self.recovering = Some(Box::pin(tokio::time::sleep(Duration::from_millis(rec))));
+        }
         if strict {
             log(format!("{}inner_call {} {} tag={} ready={}", self.label, req.c, k, req.tag, self.ready as u8));
         } else {
